@@ -16,7 +16,7 @@ TOK = {
     "esc_utf8_lo": ["%c3%a9", "%d0%b6", "%e4%b8%ad", "%f0%9f%98%80", "%C3%aB", "%c3%Ab"],
     "space_raw": [" ", "\u00a0", "\u2003"],
     "space_esc": ["%20", "%C2%A0", "%E2%80%83", "%E3%80%80", "%c2%a0"],
-    "esc_reserved": ["%2F", "%3F", "%23", "%26", "%3D", "%40", "%3A", "%2B", "%3B", "%2C", "%2f", "%3f"],
+    "esc_reserved": ["%2F", "%3F", "%23", "%26", "%3D", "%40", "%3A", "%2B", "%3B", "%2C", "%2f", "%3f", "%5B", "%5D", "%5b"],
     "esc_percent": ["%25"],
     "double": ["%2541", "%2520", "%252F", "%2525", "%25zz"],
     "malformed": ["%", "%4", "%zz", "%%41", "%4G", "%%", "%g1", "%٣٤", "%4１", "%4%31", "%2%46", "%%34%31", "%c%33"],
